@@ -34,7 +34,7 @@ ASSUMPTIONS = [
     'random.sample inside sample_parameters is seeded by the harness from the case',
     'stored spectrum compared with an independent model at the MAP on the full native grid and the C05 reference binning, rtol 1e-9',
 ]
-REQUIRED = {'refit-on-same-optimizer': 0.15, 'sampler:nestle': 0.15, 'sampler:multinest': 0.15, 'weights:nonuniform': 0.3, 'has-derived': 0.2}
+REQUIRED = {'zero-coordinate-at-map': 0.05, 'refit-on-same-optimizer': 0.15, 'sampler:nestle': 0.15, 'sampler:multinest': 0.15, 'weights:nonuniform': 0.3, 'has-derived': 0.2}
 
 DERIVED = ['mu', 'logg', 'avg_T']
 
@@ -66,7 +66,7 @@ def _case(draw):
     return {'tiny': tiny, 'world': w, 'sampler': sampler, 'family': family, 'fitted': list(fitted), 'priors': pri,
             'obs': draw(c06.observation_spec()), 'ns': ns, 'wkind': wkind, 'u': u, 'wr': wr, 'derived': derived,
             'ngauss': 1 + draw(S.ints(0, 1)), 'split': draw(st.floats(0.2, 0.8)),
-            'size': draw(st.sampled_from(['heavy', 'light', 'lighter'])), 'refit': draw(st.sampled_from([True, False, False]))}
+            'size': draw(st.sampled_from(['heavy', 'light', 'lighter'])), 'refit': draw(st.sampled_from([True, False, False])), 'zero_coord': draw(st.sampled_from([True, False]))}
 
 
 def strategy(tier):
@@ -179,6 +179,12 @@ class Retrieval:
         self.samples = np.array([[c06.ref_inverse(*self.specs[n], case['u'][i][j % 4]) for j, n in enumerate(self.order)]
                                  for i in range(ns)], dtype=float).reshape(ns, len(self.order))
         self.weights = weights_for(case)
+        # a coordinate of the sampled space that is exactly 0.0 is a value like any other (planet_radius = 1 R_J under a
+        # log-space prior): put one at the sample of greatest weight when the priors allow it
+        if case.get('zero_coord') and 'planet_radius' in self.order and self.specs['planet_radius'][0].startswith('Log'):
+            j = self.order.index('planet_radius')
+            self.samples[int(np.argmax(self.weights)), j] = 0.0
+            out.cls('zero-coordinate-at-map')
 
     def to_physical(self, x):
         return [(10.0 ** v) if self.specs[n][0].startswith('Log') else v for n, v in zip(self.order, x)]
